@@ -17,11 +17,12 @@ nothing is rewritten, or the visit ran on a deep copy).  Branch by branch:
   * null: accepted at once by a nullable schema; otherwise a comb asks its branches (and accepts without looking
     at its own keywords), every other node rejects;
   * obj, on an object: FIRST the defaults (only when `DefaultsSet` is installed, i.e. SkipSettingDefaults is off):
-    a property that is absent — or present with value null (`value[propName] == nil`) — and whose schema has a
-    non-null default gets it, unless the property is readOnly (and read-only validation is on); a readOnly
-    property whose key is present (null included) is an error; THEN unknown keys need `additionalProperties`, every
-    present property is visited with its schema (the injected defaults too), and `required` wants the key to be
-    present (or the property to be readOnly);
+    a property whose key is ABSENT (`_, present := value[propName]; !present` — the repaired code, commit c740938:
+    a member that is present with the value null is present) and whose schema has a non-null default gets it,
+    unless the property is readOnly (and read-only validation is on); a readOnly property whose key is present
+    (null included) is an error; THEN unknown keys need `additionalProperties`, every present property is visited
+    with its schema (the injected defaults too; an explicit null is visited as null: a non-nullable property schema
+    rejects it), and `required` wants the key to be present (or the property to be readOnly);
   * arr: every item is visited;
   * anyOf: the first branch that accepts a deep copy is run again on the value — value semantics: its result;
     oneOf: exactly one branch must accept a copy, then that one is run on the value; allOf: all branches run on the
@@ -82,7 +83,7 @@ def S.attr : S → Attr
 structure Ctx where
   setDefaults : Bool := true      -- `DefaultsSet` installed (Options.SkipSettingDefaults is off)
   roDisabled : Bool := false      -- Options.ExcludeReadOnlyValidations
-  nullIsAbsent : Bool := true     -- the code's `value[propName] == nil` (true) vs. the property's "absent" (false)
+  multi : Bool := false           -- Options.MultiError: a failing member does not end the visit of its object / array
   deriving Repr
 
 def lookup (k : String) : List (String × α) → Option α
@@ -103,10 +104,10 @@ def leafOK : Ty → J → Bool
 /-- `reqRO` of visitJSONObject -/
 def reqRO (c : Ctx) (a : Attr) : Bool := a.readOnly && !c.roDisabled
 
-/-- does the property slot count as empty for default injection? -/
-def slotEmpty (c : Ctx) : Option J → Bool
+/-- does the property slot count as empty for default injection?  Only when the key is absent
+    (`_, present := value[propName]; !present`); an explicit null is a present member. -/
+def slotEmpty : Option J → Bool
   | none => true
-  | some .null => c.nullIsAbsent
   | some _ => false
 
 /-- the default a property receives, if any (a JSON `null` default is a nil `Default`: none) -/
@@ -117,7 +118,7 @@ def dfltFor (c : Ctx) (a : Attr) : Option J :=
 
 /-- one turn of the default-injection loop: property `k` with attributes `a` -/
 def injectStep (c : Ctx) (k : String) (a : Attr) (kvs : List (String × J)) : List (String × J) :=
-  if slotEmpty c (lookup k kvs) then (match dfltFor c a with | some d => setKey k d kvs | none => kvs) else kvs
+  if slotEmpty (lookup k kvs) then (match dfltFor c a with | some d => setKey k d kvs | none => kvs) else kvs
 
 /-- the default-injection loop at the head of visitJSONObject -/
 def injectDefaults (c : Ctx) : List (String × S) → List (String × J) → List (String × J)
@@ -203,21 +204,91 @@ end
 
 def accepts (c : Ctx) (s : S) (v : J) : Bool := (visit c s v).isSome
 
-/-! ### what the exclusion classes and the spec speak about -/
+/-! ### did the visit set a default ANYWHERE — the `DefaultsSet` callback
+
+`settings.onceSettingDefaults.Do(settings.defaultsSet)` runs wherever visitJSONObject writes a default: into the value
+itself, but also into the private deep copy a oneOf/anyOf candidate is tried on, whether or not that candidate then
+accepts.  ValidateRequestBody re-encodes the body iff the callback ran.  `touched` follows the traversal of the code,
+early exits included (a rejected visit is what happens inside a discarded candidate):
+  * object on an object value: the defaults loop runs first; then the members are visited in the order of their keys;
+    without MultiError the first failing member ends the visit, and so does the first key without a property schema
+    when additional properties are forbidden (members with greater keys are not visited any more);
+  * array: items in order, the first failing one ends the visit (without MultiError);
+  * oneOf: every branch is tried; anyOf: the branches up to the first accepting one; allOf: the members in order, on the
+    value as the earlier ones left it, up to the first failing one; the second run on the matched branch sets the
+    defaults the trial run of that branch set;
+  * null, scalars, type mismatches: nothing is visited.
+Needs the property lists sorted by name (they are the sorted keys of a Go map; the driver sorts them). -/
+
+/-- the smallest key of the value that has no property schema -/
+def firstUnknown (props : List (String × S)) : List (String × J) → Option String
+  | [] => none
+  | (k, _) :: r =>
+    match firstUnknown props r with
+    | none => if (lookup k props).isSome then none else some k
+    | some m => if (lookup k props).isSome then some m else (if k < m then some k else some m)
+
+/-- the key at which the member loop of visitJSONObject returns "property … is unsupported", if it gets that far -/
+def stopKey (c : Ctx) (addl : Bool) (props : List (String × S)) (kvs1 : List (String × J)) : Option String :=
+  if addl || c.multi then none else firstUnknown props kvs1
+
+def beyond (stop : Option String) (k : String) : Bool := match stop with | some u => u < k | none => false
+
+/-- `f` on the items in order, up to and including the first item on which `ends` holds -/
+def anyUntil (f ends : J → Bool) : List J → Bool
+  | [] => false
+  | x :: r => f x || (if ends x then false else anyUntil f ends r)
 
 mutual
-/-- some object member, at any depth, is an explicit `null` -/
-def hasNullProp : J → Bool
-  | .arr xs => hasNullPropList xs
-  | .obj kvs => hasNullPropKvs kvs
-  | _ => false
-def hasNullPropList : List J → Bool
-  | [] => false
-  | x :: xs => hasNullProp x || hasNullPropList xs
-def hasNullPropKvs : List (String × J) → Bool
-  | [] => false
-  | (_, x) :: r => x.isNull || hasNullProp x || hasNullPropKvs r
+def touched (c : Ctx) : S → J → Bool
+  | .leaf _ _, _ => false
+  | .obj _ _ props addl, v =>
+    match v with
+    | .obj kvs =>
+      (c.setDefaults && (defaulted c props kvs).length != kvs.length) ||
+        touchedProps c (stopKey c addl props (defaulted c props kvs)) props (defaulted c props kvs)
+    | _ => false
+  | .arr _ items, v =>
+    match v with
+    | .arr xs => anyUntil (fun x => touched c items x) (fun x => (visit c items x).isNone && !c.multi) xs
+    | _ => false
+  | .comb _ k bs, v =>
+    if v.isNull then false
+    else match k with
+      | .oneOf => touchedEach c bs v
+      | .anyOf => touchedUntilMatch c bs v
+      | .allOf => touchedChain c bs v
+def touchedProps (c : Ctx) (stop : Option String) : List (String × S) → List (String × J) → Bool
+  | [], _ => false
+  | (k, s) :: ps, kvs1 =>
+    match lookup k kvs1 with
+    | none => touchedProps c stop ps kvs1
+    | some x =>
+      if beyond stop k then false
+      else touched c s x || (if (visit c s x).isNone && !c.multi then false else touchedProps c stop ps kvs1)
+def touchedEach (c : Ctx) : List S → J → Bool
+  | [], _ => false
+  | b :: bs, v => touched c b v || touchedEach c bs v
+def touchedUntilMatch (c : Ctx) : List S → J → Bool
+  | [], _ => false
+  | b :: bs, v => touched c b v || (if (visit c b v).isSome then false else touchedUntilMatch c bs v)
+def touchedChain (c : Ctx) : List S → J → Bool
+  | [], _ => false
+  | b :: bs, v => touched c b v || (match visit c b v with | some v1 => touchedChain c bs v1 | none => false)
 end
+
+/-- the property names of every object node are in ascending order -/
+def sortedKeys : List String → Bool
+  | [] => true
+  | [_] => true
+  | a :: b :: r => a < b && sortedKeys (b :: r)
+
+/-- the value after `n` validations (each one must accept) -/
+def visitN (c : Ctx) (s : S) : Nat → J → Option J
+  | 0, v => some v
+  | n + 1, v => (visit c s v).bind (visitN c s n)
+
+/-! ### what the exclusion classes and the spec speak about -/
 
 mutual
 /-- the schema contains an allOf/oneOf/anyOf node -/
@@ -250,26 +321,65 @@ def wfList : List S → Bool
   | s :: r => wf s && wfList r
 end
 
-/-- the default of a node, if any, has no null members -/
-def attrClean (a : Attr) : Bool := match a.dflt with | some d => !hasNullProp d | none => true
+/-! ### Spec (from the property text)
+
+"Each absent body property that has a schema default appears in the forwarded request with that default and nothing
+else changes … Defaults from a oneOf/anyOf branch that did not match are never applied."  Read as a function: an
+object is forwarded with its received members, followed by ONE new member for each property that is absent and has an
+applicable default (no loop, no overwriting); the members are then forwarded by their own property schemas; arrays
+item by item; `anyOf` forwards what its first accepting branch forwards, `oneOf` what its only accepting branch
+forwards, `allOf` what its members forward one after the other.  Written independently of `injectDefaults`/`setKey`. -/
+
+/-- one new member for each ABSENT property with an applicable default, in the order of the properties -/
+def absentDefaults (c : Ctx) : List (String × S) → List (String × J) → List (String × J)
+  | [], _ => []
+  | (k, s) :: ps, kvs =>
+    match lookup k kvs, dfltFor c s.attr with
+    | none, some d => (k, d) :: absentDefaults c ps kvs
+    | _, _ => absentDefaults c ps kvs
+
+def specDefaulted (c : Ctx) (props : List (String × S)) (kvs : List (String × J)) : List (String × J) :=
+  if c.setDefaults then kvs ++ absentDefaults c props kvs else kvs
+
+def specObjPre (c : Ctx) (req : List String) (props : List (String × S)) (addl : Bool) (kvs : List (String × J)) :
+    Option (List (String × J)) :=
+  if objChecks c req props addl (specDefaulted c props kvs) then some (specDefaulted c props kvs) else none
 
 mutual
-/-- no default anywhere in the schema contains an explicit null member -/
-def cleanDefaults : S → Bool
-  | .leaf a _ => attrClean a
-  | .obj a _ props _ => attrClean a && cleanProps props
-  | .arr a items => attrClean a && cleanDefaults items
-  | .comb a _ bs => attrClean a && cleanList bs
-def cleanProps : List (String × S) → Bool
-  | [] => true
-  | (_, s) :: r => cleanDefaults s && cleanProps r
-def cleanList : List S → Bool
-  | [] => true
-  | s :: r => cleanDefaults s && cleanList r
+def specVisit (c : Ctx) : S → J → Option J
+  | .leaf a ty, v =>
+    if v.isNull then (if a.nullable then some v else none)
+    else if leafOK ty v then some v else none
+  | .obj a req props addl, v =>
+    match v with
+    | .null => if a.nullable then some .null else none
+    | .obj kvs => (specObjPre c req props addl kvs).bind (fun kvs1 => (specVisitProps c props kvs1).map J.obj)
+    | _ => none
+  | .arr a items, v =>
+    match v with
+    | .null => if a.nullable then some .null else none
+    | .arr xs => (mapOpt (fun x => specVisit c items x) xs).map J.arr
+    | _ => none
+  | .comb a k bs, v => combRes a k bs.isEmpty v (specVisitAll c bs v) (specVisitMatches c bs v)
+def specVisitProps (c : Ctx) : List (String × S) → List (String × J) → Option (List (String × J))
+  | [], kvs => some kvs
+  | (k, s) :: ps, kvs =>
+    match lookup k kvs with
+    | none => specVisitProps c ps kvs
+    | some x => (specVisit c s x).bind (fun x' => specVisitProps c ps (setKey k x' kvs))
+def specVisitMatches (c : Ctx) : List S → J → List J
+  | [], _ => []
+  | b :: bs, v => (specVisit c b v).toList ++ specVisitMatches c bs v
+def specVisitAll (c : Ctx) : List S → J → Option J
+  | [], v => some v
+  | b :: bs, v => (specVisit c b v).bind (fun v' => specVisitAll c bs v')
 end
 
-/-- the property's reading: only ABSENT properties receive defaults -/
-def specCtx (c : Ctx) : Ctx := { c with nullIsAbsent := false }
+/-- F-C13-11: the `DefaultsSet` callback ran although the accepted value is unchanged — a default was written only into
+    the private copy of a oneOf/anyOf candidate that was then discarded — so the body is re-encoded (other bytes, same
+    value) or, without an encoder, the valid request is rejected -/
+def DiscardedCandidateTouches (c : Ctx) (s : S) (v : J) : Bool :=
+  touched c s v && (match visit c s v with | some v' => J.beq v' v | none => false)
 
 /-- finding #37: with compositions in the schema, validating the forwarded value again gives something else -/
 def BranchShift (c : Ctx) (s : S) (v : J) : Bool :=
